@@ -157,6 +157,18 @@ def cases(tier, rng):
                 continue  # prefixes of longer paths are covered by them
             for path in itertools.product(OPS, repeat=k):
                 out.append((src, list(path)))
+    # histories around a SUSPENDED iterator / a kept copy (deterministic, every source): start it, let another
+    # observation grow the cache, then continue it
+    starts = [O("IterTake", 1), O("CopyIndex", 0), O("IterTake", 2), O("Copy")]
+    grows = [O("Index", 2), O("Len"), O("Listify"), O("NegIndex", 1), O("Index", 1), O("SliceTo", 0, 2, 1), O("Contains", 2), O("Bool")]
+    ends = [O("IterDrain"), O("CopyList"), O("IterTake", 2), O("IterTake", 1), O("CopyIndex", 1)]
+    for src in srcs:
+        for a in starts:
+            for b in grows:
+                for c in ends:
+                    out.append((src, [dict(a), dict(b), dict(c)]))
+                    for g1 in (O("Index", 0), O("Bool"), O("Index", 1)):      # a little is cached BEFORE the iterator starts
+                        out.append((src, [dict(g1), dict(a), dict(b), dict(c)]))
     nr = 3000 if tier == "quick" else 100000
     for _ in range(nr):
         n = rng.randint(0, 8)
